@@ -27,7 +27,8 @@ def main():
             refute = {"bound": int(parts[1]), "unroll": int(parts[2]) if len(parts) > 2 else 4}
         out = verify_contract(c, reg, timeout_ms=timeout_ms, refute=refute, only=only)
         out["assumptions_used"] = sorted(set(stubs.USED) | set(c.assumptions))
-        out["inlined"] = sorted(x.id for x in reg.by_id.values() if x.inline)
+        from .contract import AUTO_INLINED
+        out["inlined"] = sorted(x.id for x in reg.by_id.values() if x.inline) + sorted(AUTO_INLINED)
         out["props"] = c.props
         out["notes"] = c.notes
     except Exception as e:  # a crash of the checker is a checker fault, never a verdict
